@@ -220,6 +220,28 @@ pub fn replay(v: &Value) -> Outcome {
     let mut ge = grammar_event(&tables, n as i64, true);
     ge["vec"] = v.clone();
     o.trace.push(ge);
+    // ---- C08: the real eval() on every window up to k+1 tokens (terminals + foreign token)
+    if std::env::var("PV_EVAL").map(|s| s != "0").unwrap_or(true)
+        && let PTables::LL(ll) = &tables.p
+    {
+        for (nti, a) in ll.automata.iter().enumerate() {
+            if a.k == 0 {
+                continue;
+            }
+            for w in all_strings(&alpha, (a.k + 1).min(tables.max_k + 1)) {
+                let text = w.join(" ");
+                let window: Vec<String> = w.iter().map(|t| ty_of(t)).collect();
+                let res = match catch_unwind(AssertUnwindSafe(|| dynrt::eval_window(&tables, nti, &text))) {
+                    Ok(Ok(r)) => json!(r),
+                    Ok(Err(e)) => json!(format!("error: {e:#}")),
+                    Err(e) => json!(format!("panic: {}", crate::panic_msg(e))),
+                };
+                o.evals += 1;
+                o.trace.push(json!({"ev":"eval","nt": tables.non_terminals[nti], "window": window,
+                                    "text": text, "res": res}));
+            }
+        }
+    }
     let chosen: Vec<Vec<String>> = pick(&sentences, sample, 1)
         .into_iter()
         .chain(pick(&nonsentences, sample.div_ceil(2), 2))
